@@ -98,7 +98,9 @@ fn wd(r: &mut Rng) -> u64 {
 
 pub fn inputs_c04(r: &mut Rng, n: usize, _tier: &str, out: &mut dyn Write) {
     for _ in 0..n {
-        let ts = *r.pick(&NONDYN);
+        // one case in six on an epoch HELD in ET or TDB (every op but the cross-scale difference, which has its own op ediff9)
+        let dyn_held = r.chance(1, 6);
+        let ts = if dyn_held { *r.pick(&["ET", "TDB"]) } else { *r.pick(&NONDYN) };
         let e = epoch_total(r, ts);
         let d = match r.below(4) {
             0 => total(r),
@@ -131,6 +133,7 @@ pub fn inputs_c04(r: &mut Rng, n: usize, _tier: &str, out: &mut dyn Write) {
             }
             0 | 1 => writeln!(out, "eadd {}:{} {}", dstr(e), ts, dstr(d)).unwrap(),
             2 | 3 => writeln!(out, "esub {}:{} {}", dstr(e), ts, dstr(d)).unwrap(),
+            4 | 5 if dyn_held => writeln!(out, "eadd {}:{} {}", dstr(e), ts, dstr(d)).unwrap(),
             4 | 5 => {
                 // difference of two epochs, possibly in different (non dynamical) scales
                 let ts2 = if r.chance(1, 2) { ts } else { *r.pick(&NONDYN) };
@@ -449,11 +452,11 @@ pub fn inputs_c17(r: &mut Rng, n: usize, _tier: &str, out: &mut dyn Write) {
             0 | 1 | 2 => writeln!(out, "acc17 {} {}", *r.pick(&ACCD), es).unwrap(),
             3 | 4 | 5 | 6 => writeln!(out, "accf {} {}", *r.pick(&ACCF), es).unwrap(),
             7 => {
-                let k = *r.pick(&["TAI", "UTC", "GPST", "QZSST", "GST", "BDT"]);
+                let k = *r.pick(&["TAI", "UTC", "GPST", "QZSST", "GST", "BDT", "TT", "ET", "TDB"]);
                 writeln!(out, "from_mjd {} {}", k, f2s(f_days(r))).unwrap()
             }
             8 => {
-                let k = *r.pick(&["TAI", "UTC", "GPST", "QZSST", "GST", "BDT"]);
+                let k = *r.pick(&["TAI", "UTC", "GPST", "QZSST", "GST", "BDT", "TT", "ET", "TDB"]);
                 writeln!(out, "from_jde {} {}", k, f2s(f_days(r) + 2_400_000.5)).unwrap()
             }
             9 => {
@@ -652,6 +655,16 @@ pub fn inputs_c16(r: &mut Rng, n: usize, _tier: &str, out: &mut dyn Write) {
         .clamp(DMIN, DMAX);
         let es = format!("{}:{}", dstr(e), ts);
         match r.below(10) {
+            0 if r.chance(1, 3) => {
+                // epochs HELD in ET or TDB
+                let dy = *r.pick(&["ET", "TDB"]);
+                let v = (r.range_i64(-3_600_000, 3_600_000) as i128) * DAY + r.below(DAY as u64) as i128;
+                match r.below(3) {
+                    0 => writeln!(out, "weekday {}:{}", dstr(v), dy).unwrap(),
+                    1 => writeln!(out, "weekday_utc {}:{}", dstr(v), dy).unwrap(),
+                    _ => writeln!(out, "weekday_ts {}:{} {}", dstr(v), dy, *r.pick(&NONDYN)).unwrap(),
+                }
+            }
             0 | 1 | 2 => writeln!(out, "weekday {}", es).unwrap(),
             3 | 4 => writeln!(out, "weekday_utc {}", es).unwrap(),
             5 | 6 => {
@@ -1164,6 +1177,7 @@ pub fn exec(op: &str, a: &[&str]) -> Option<String> {
                 TimeSeries::exclusive(start, end, step)
             };
             let mut count = 0usize;
+            let mut sum: u64 = 0;
             let mut first: Vec<String> = Vec::new();
             let mut last: Option<Epoch> = None;
             let mut prev: Option<Epoch> = None;
@@ -1188,18 +1202,22 @@ pub fn exec(op: &str, a: &[&str]) -> Option<String> {
                 }
                 prev = Some(e);
                 last = Some(e);
+                // running checksum over EVERY item (the middle ones are otherwise unobserved): sum of the counts mod 2^64
+                let (c, ns) = e.duration.to_parts();
+                sum = sum.wrapping_add((c as i128 * 3_155_760_000_000_000_000i128 + ns as i128) as u64);
             }
             // after the end, next() keeps returning None
             let after = if count < cap { b2s(it.next().is_none() && it.next().is_none()) } else { "1" };
             Some(format!(
-                "ok {} {} {} {} {} {} {}",
+                "ok {} {} {} {} {} {} {} {}",
                 count,
                 e2s(end),
                 if first.is_empty() { "-".to_string() } else { first.join(",") },
                 last.map(e2s).unwrap_or_else(|| "-".to_string()),
                 b2s(ordered),
                 b2s(same_scale),
-                after
+                after,
+                sum
             ))
         }
         // ---- C16
